@@ -98,6 +98,11 @@ def builtin_corpus():
 def compare(case, io, mo):
     return semcheck.compare(case, io, mo)
 
+def oracle(case, io):
+    """intrinsic, on the implementation alone: no query variable stays bound after the enumeration (semcheck), and - round 4 - `\\+ G`
+    never binds a variable: a predicate whose body is a single negation answers with the unchanged query (progs_r4.check_neg_binds_nothing)"""
+    return semcheck.oracle(case, io) or progs_r4.check_neg_binds_nothing(case, io)
+
 def nontrivial(case, io):
     if not isinstance(io, dict) or 'queries' not in io or not any(q['count'] >= 1 for q in io['queries']):
         return False
